@@ -90,6 +90,16 @@ struct Dest {
   }
 };
 
+// Run a conversion into a canary-filled destination. A success that leaves every byte equal to the canary either stored
+// nothing or stored bytes that happen to equal the pattern: the call is repeated with the complementary pattern, after
+// which an untouched destination can only mean that nothing was stored.
+template <class F> static int call_canary(Dest &d, uint8_t canary, int min_success, F f) {
+  d.fill(canary);
+  int r = f(d.p());
+  if (r >= min_success && d.untouched()) { d.fill((uint8_t)~canary); r = f(d.p()); }
+  return r;
+}
+
 // ------------------------------------------------------------------ source value
 struct Val {
   bool flt;
@@ -158,6 +168,9 @@ static void judge_data(Ctx &c, const char *family, const TI &st, const Val &s, c
     c.label(ref.possible ? "data:refused-although-representable" : "data:refused-unrepresentable");
     return;
   }
+  if (d.untouched())
+    c.fail(tagof(family, "success-without-store", t.id).c_str(), "%s '%c'->'%c' value %s: reports success (%d) but stored nothing (destination still holds the canary pattern 0x%02x for both patterns tried)", family, st.id, t.id,
+           sv.c_str(), r1, d.canary);
   if (!ref.possible) {
     if (ref.overflow)
       c.fail(tagof(family, "float-overflow", t.id).c_str(), "%s '%c'->'%c': finite value %s accepted (ret %d), destination holds %s", family, st.id, t.id, sv.c_str(), r1, ldstr(d.getf(t)).c_str());
@@ -210,37 +223,51 @@ static int it_advance(CIter *i) { if (!i->have) return MPT_ERROR(MissingData); i
 static int it_reset(CIter *i) { i->have = true; return 0; }
 static const CIterVptr kIterVptr = {it_get, it_advance, it_reset};
 
-enum { EDirect = 1, EValue = 2, EConsume = 4 };
+enum { EDirect = 1, EValue = 2, EConsume = 4, ECopy = 8 };
 
-static void data_pair(Ctx &c, int sti, const Val &s, int tti, unsigned entries, uint8_t canary) {
+static void data_pair(Ctx &c, int sti, const Val &s, int tti, unsigned entries, uint8_t canary, bool absent = false) {
   const TI &st = kT[sti], &t = kT[tti];
   Mem src(st.width);
   store(st, s, src.p);
+  // absent source: a value with a type but no data address stands for zero (every mpt_data_convert_* reads a NULL
+  // source as 0, mpt_value_copy zero-fills); the caller passes s == 0
+  const void *sp = absent ? 0 : src.p;
+  if (absent) c.logf("  (source without data address)");
   Dest d;
   if (entries & EDirect) {
     Conv f = direct_converter(sti);
-    d.fill(canary);
-    int r1 = f(src.p, t.id, d.p());
-    int r0 = f(src.p, t.id, 0);
-    judge_data(c, "data", st, s, t, r1, r0, d);
+    int r1 = call_canary(d, canary, 0, [&](void *p) { return f(sp, t.id, p); });
+    int r0 = f(sp, t.id, 0);
+    judge_data(c, absent ? "data-absent" : "data", st, s, t, r1, r0, d);
     if (r1 >= 0 && r1 != t.width) { c.label("note:returned-size-differs-from-target-size"); c.logf("  note: returned size %d, target type has %d bytes", r1, t.width); }
   }
   CObj<value> v;
-  v->_addr = src.p;
+  v->_addr = sp;
   v->_type = (type_t)st.id;
   if (entries & EValue) {
-    d.fill(canary);
-    int r1 = mpt_value_convert(v, t.id, d.p());
+    int r1 = call_canary(d, canary, 0, [&](void *p) { return mpt_value_convert(v, t.id, p); });
     int r0 = mpt_value_convert(v, t.id, 0);
-    judge_data(c, "value", st, s, t, r1, r0, d);
+    judge_data(c, absent ? "value-absent" : "value", st, s, t, r1, r0, d);
   }
   if (entries & EConsume) {
     CIter it = {&kIterVptr, v, true, 0};
-    d.fill(canary);
-    int r1 = mpt_iterator_consume(reinterpret_cast<iterator *>(&it), t.id, d.p());
+    int r1 = call_canary(d, canary, 0, [&](void *p) { it.have = true; return mpt_iterator_consume(reinterpret_cast<iterator *>(&it), t.id, p); });
     it.have = true;
     int r0 = mpt_iterator_consume(reinterpret_cast<iterator *>(&it), t.id, 0);
-    judge_data(c, "consume", st, s, t, r1, r0, d);  // the meaning of a positive return (source type id) is not part of the property
+    judge_data(c, absent ? "consume-absent" : "consume", st, s, t, r1, r0, d);  // the meaning of a positive return (source type id) is not part of the property
+  }
+  if ((entries & ECopy) && sti == tti) {
+    // mpt_value_copy: same type, "maximum allowed data size" exact / generous / one byte short
+    const size_t maxs[3] = {(size_t)t.width, (size_t)(Dest::Size - Dest::Off), (size_t)t.width - 1};
+    for (int k = 0; k < 3; k++) {
+      size_t mx = maxs[k];
+      int r1 = call_canary(d, canary, 0, [&](void *p) { return (int)mpt_value_copy(v, p, mx); });
+      int r0 = (int)mpt_value_copy(v, 0, mx);
+      c.logf("  mpt_value_copy max %zu", mx);
+      if (k == 2 && r1 >= 0)
+        c.fail(tagof("copy", "size-limit", t.id).c_str(), "mpt_value_copy of a '%c' value (%d bytes) into %zu bytes reports success (%d)", st.id, t.width, mx, r1);
+      judge_data(c, absent ? "copy-absent" : "copy", st, s, t, r1, r0, d);
+    }
   }
 }
 
@@ -539,6 +566,7 @@ static void judge_text(Ctx &c, const TextCall &tc, const std::string &text, int 
       if (blank && tc.ws_success_ok && d.untouched()) { c.label("txt:blank-consumed"); return; }
       c.fail(tagof(fam, "bad-prefix", t.id).c_str(), "%s %s: consumed %s is not (space, one character)", tc.what.c_str(), q.c_str(), pq.c_str());
     }
+    if (d.untouched()) c.fail(tagof(fam, "success-without-store", t.id).c_str(), "%s %s: reports %d consumed characters but stored nothing", tc.what.c_str(), q.c_str(), r1);
     i128 g = d.geti(t), want = (i128)(char)pre[r1 - 1];
     if (g != want) c.fail(tagof(fam, "wrong-value", t.id).c_str(), "%s %s: consumed %s but destination holds %s", tc.what.c_str(), q.c_str(), pq.c_str(), i128str(g).c_str());
     if (!d.outside_intact(t.width)) c.fail(tagof(fam, "canary", t.id).c_str(), "%s %s: bytes outside the target changed: %s", tc.what.c_str(), q.c_str(), hex(d.b, Dest::Size).c_str());
@@ -549,6 +577,7 @@ static void judge_text(Ctx &c, const TextCall &tc, const std::string &text, int 
     IntNum n = parse_int(pre.data(), pre.size(), tc.base);
     if (n.ws_only && tc.ws_success_ok && d.untouched()) { c.label("txt:blank-consumed"); return; }
     if (!n.ok) c.fail(tagof(fam, "bad-prefix", t.id).c_str(), "%s %s: consumed %s is not a complete base %d numeral", tc.what.c_str(), q.c_str(), pq.c_str(), tc.base);
+    if (d.untouched()) c.fail(tagof(fam, "success-without-store", t.id).c_str(), "%s %s: reports %d consumed characters (%s) but stored nothing", tc.what.c_str(), q.c_str(), r1, pq.c_str());
     bool fits = !n.huge;
     i128 v = 0;
     if (fits) { v = n.neg ? -(i128)n.mag : (i128)n.mag; fits = v >= tlo(t) && v <= thi(t); }
@@ -569,6 +598,7 @@ static void judge_text(Ctx &c, const TextCall &tc, const std::string &text, int 
   FltClass fc = classify_float(pre.data(), pre.size(), &ws_only);
   if (ws_only && tc.ws_success_ok && d.untouched()) { c.label("txt:blank-consumed"); return; }
   if (fc == FNone) c.fail(tagof(fam, "bad-prefix", t.id).c_str(), "%s %s: consumed %s is not a complete floating point numeral", tc.what.c_str(), q.c_str(), pq.c_str());
+  if (d.untouched()) c.fail(tagof(fam, "success-without-store", t.id).c_str(), "%s %s: reports %d consumed characters (%s) but stored nothing", tc.what.c_str(), q.c_str(), r1, pq.c_str());
   char *end = 0;
   long double want = t.width == 4 ? (long double)strtof(pre.c_str(), &end) : t.width == 8 ? (long double)strtod(pre.c_str(), &end) : strtold(pre.c_str(), &end);
   if (end != pre.c_str() + pre.size()) c.fail(tagof(fam, "bad-prefix", t.id).c_str(), "%s %s: libc does not read all of the consumed %s as one numeral", tc.what.c_str(), q.c_str(), pq.c_str());
@@ -630,7 +660,7 @@ static void text_op(Ctx &c, uint8_t canary) {
     }
     c.label(e.name);
     char *s = heap(text);
-    r1 = e.call(d.p(), s, tc.base, tc.has_range ? rng : 0);
+    r1 = call_canary(d, canary, 1, [&](void *p) { return e.call(p, s, tc.base, tc.has_range ? rng : 0); });
     r0 = e.call(0, s, tc.base, tc.has_range ? rng : 0);
     free(s);
   } else if (fam == 1) {
@@ -654,9 +684,9 @@ static void text_op(Ctx &c, uint8_t canary) {
     }
     c.label(tc.what.c_str());
     char *s = heap(text);
-    if (which == 0) { r1 = mpt_cfloat((float *)d.p(), s, tc.has_range ? rf : 0); r0 = mpt_cfloat(0, s, tc.has_range ? rf : 0); }
-    else if (which == 1) { r1 = mpt_cdouble((double *)d.p(), s, tc.has_range ? rd : 0); r0 = mpt_cdouble(0, s, tc.has_range ? rd : 0); }
-    else { r1 = mpt_cldouble((long double *)d.p(), s, tc.has_range ? re : 0); r0 = mpt_cldouble(0, s, tc.has_range ? re : 0); }
+    if (which == 0) { r1 = call_canary(d, canary, 1, [&](void *p) { return mpt_cfloat((float *)p, s, tc.has_range ? rf : 0); }); r0 = mpt_cfloat(0, s, tc.has_range ? rf : 0); }
+    else if (which == 1) { r1 = call_canary(d, canary, 1, [&](void *p) { return mpt_cdouble((double *)p, s, tc.has_range ? rd : 0); }); r0 = mpt_cdouble(0, s, tc.has_range ? rd : 0); }
+    else { r1 = call_canary(d, canary, 1, [&](void *p) { return mpt_cldouble((long double *)p, s, tc.has_range ? re : 0); }); r0 = mpt_cldouble(0, s, tc.has_range ? re : 0); }
     free(s);
   } else {
     int ti = (int)c.pick(NT);
@@ -669,8 +699,8 @@ static void text_op(Ctx &c, uint8_t canary) {
     else text = (tc.t.flt ? c.weighted({1, 4}) : c.weighted({5, 1})) ? gen_flt_text(c) : gen_int_text(c, 0);
     c.label(fam == 2 ? "mpt_convert_number" : "mpt_convert_string");
     char *s = heap(text);
-    if (fam == 2) { r1 = mpt_convert_number(s, tc.t.id, d.p()); r0 = mpt_convert_number(s, tc.t.id, 0); }
-    else { r1 = mpt_convert_string(s, (type_t)tc.t.id, d.p()); r0 = mpt_convert_string(s, (type_t)tc.t.id, 0); }
+    if (fam == 2) { r1 = call_canary(d, canary, 1, [&](void *p) { return mpt_convert_number(s, tc.t.id, p); }); r0 = mpt_convert_number(s, tc.t.id, 0); }
+    else { r1 = call_canary(d, canary, 1, [&](void *p) { return mpt_convert_string(s, (type_t)tc.t.id, p); }); r0 = mpt_convert_string(s, (type_t)tc.t.id, 0); }
     free(s);
   }
   judge_text(c, tc, text, r1, r0, d);
@@ -731,9 +761,9 @@ static int iter_request(Ctx &c, TextIter &ti, const std::string &rest, const TI 
   char *copy = (char *)malloc(rest.size() + 1);
   memcpy(copy, rest.c_str(), rest.size() + 1);
   Dest di;
-  di.fill(canary);
-  int ri = mpt_convert_string(copy, (type_t)t.id, di.p());
+  int ri = call_canary(di, canary, 1, [&](void *p) { return mpt_convert_string(copy, (type_t)t.id, p); });
   free(copy);
+  canary = di.canary;   // a pattern the isolated result differs from (if it stored anything at all)
   Dest d;
   d.fill(canary);
   int r;
@@ -766,6 +796,9 @@ static int iter_request(Ctx &c, TextIter &ti, const std::string &rest, const TI 
     c.label("iter:query");
     return ri;
   }
+  if (d.untouched())
+    c.fail("iter:success-without-store", "%s(element, '%c') on remaining text %s reports success (%d) but stored nothing (isolated conversion: %d characters, %s)", what, t.id, q.c_str(), r, ri,
+           di.untouched() ? "stored nothing either" : "stored a value");
   int cmpw = (t.flt && t.width == 16) ? 10 : t.width;
   if (memcmp(d.b + Dest::Off, di.b + Dest::Off, cmpw)) {
     std::string got = t.flt ? ldstr(d.getf(t)) : i128str(d.geti(t)), want = t.flt ? ldstr(di.getf(t)) : i128str(di.geti(t));
@@ -849,16 +882,17 @@ static void iterator_case(Ctx &c, uint8_t canary) {
 }
 
 // ------------------------------------------------------------------ case
-static void data_op(Ctx &c, uint8_t canary) {
+static void data_op(Ctx &c, uint8_t canary, bool absent) {
   int sti = (int)c.pick(NT), tti = (int)c.pick(NT);
   Val s = kT[sti].flt ? gen_flt(c, kT[sti]) : gen_int(c, kT[sti]);
+  if (absent) { s.iv = 0; s.fv = 0; c.label("src:absent"); c.nontrivial(); }   // the drawn value is discarded: the decoding of committed cases stays as it is
   if (in_some_range_violation(s)) c.nontrivial();
   char lab[16];
   snprintf(lab, sizeof lab, "from:%c", kT[sti].id);
   c.label(lab);
   snprintf(lab, sizeof lab, "to:%c", kT[tti].id);
   c.label(lab);
-  data_pair(c, sti, s, tti, EDirect | EValue | EConsume, canary);
+  data_pair(c, sti, s, tti, EDirect | EValue | EConsume | ECopy, canary, absent);
 }
 
 static const int kEnumSrc[] = {Tc, Tb, Ty, Tn, Tq};
@@ -871,16 +905,26 @@ static void run(Ctx &c) {
     const TI &st = kT[sti];
     Val s = {false, fit(st, (i128)raw), 0};
     c.logf("enumerated: source '%c' value %s", st.id, i128str(s.iv).c_str());
-    for (int tti = 0; tti < NT; tti++) data_pair(c, sti, s, tti, EDirect | EValue | EConsume, 0xA5);
+    for (int tti = 0; tti < NT; tti++) data_pair(c, sti, s, tti, EDirect | EValue | EConsume | ECopy, 0xA5);
     if (in_some_range_violation(s)) c.nontrivial();
     c.label("enumerated");
     return;
   }
+  if (sel == 0xfe) {  // enumerated sub-space: source type without data address (stands for zero), all targets, all entries, both modes
+    int sti = (int)c.pick(NT);
+    Val s = {kT[sti].flt, 0, 0};
+    c.logf("enumerated: source '%c' without data address", kT[sti].id);
+    for (int tti = 0; tti < NT; tti++) data_pair(c, sti, s, tti, EDirect | EValue | EConsume | ECopy, 0xA5, true);
+    c.nontrivial();
+    c.label("enumerated-absent");
+    return;
+  }
   uint8_t canary = (sel & 1) ? 0xA5 : 0x5A;
+  bool absent = (sel & 0x38) == 0x08;   // one case in eight: the data conversions of this case read a source without data address
   if ((sel & 6) == 2) { iterator_case(c, canary); return; }   // selector 0 / 0xff keep the decoding of the committed corpus
   do {
     if (c.weighted({1, 1})) text_op(c, canary);
-    else data_op(c, canary);
+    else data_op(c, canary, absent);
   } while (c.more());
 }
 
@@ -896,6 +940,13 @@ static void enum_make(uint64_t idx, int, std::vector<uint8_t> &out) {
   out.push_back((uint8_t)src);
   out.push_back((uint8_t)(v & 0xff));
   out.push_back((uint8_t)(v >> 8));
+}
+
+static uint64_t enum2_count(int) { return NT; }
+static void enum2_make(uint64_t idx, int, std::vector<uint8_t> &out) {
+  out.clear();
+  out.push_back(0xfe);
+  out.push_back((uint8_t)idx);
 }
 
 static Target t = {
@@ -915,7 +966,8 @@ static Target t = {
     {160, 400},
     false,
     true,
-    {{"all values of 8/16 bit sources c,b,y,n,q x all targets x entries x {dest,no dest}", enum_count, enum_make}},
+    {{"all values of 8/16 bit sources c,b,y,n,q x all targets x entries x {dest,no dest}", enum_count, enum_make},
+     {"source without data address: 13 source types x 13 targets x entries x {dest,no dest}", enum2_count, enum2_make}},
     0,
     0,
 };
